@@ -243,6 +243,17 @@ def run_shard(shard: dict[str, Any], col: common.Collector) -> None:
                     col.violation(f"C18:key-builder-raises:child:{rr['error'][:40]}",
                                   rr["error"][:200], {"desc": d})
                     continue
+                try:
+                    here_tu = tu_keys(graphs.build(d))
+                except Exception:  # noqa: BLE001
+                    here_tu = []
+                if (rr["rebuilt"] != keys[j] or (rr["unpickled"] is not None
+                                                  and rr["unpickled"] != keys[j])) \
+                        and rr.get("tu_keys") != here_tu:
+                    # loopy's key of the TranslationUnit itself depends on the hash seed
+                    col.histo("trusted_base_disagreements",
+                              "loopy:TranslationUnit-key-depends-on-hash-seed")
+                    continue
                 if rr["rebuilt"] != keys[j]:
                     col.violation("C18:key-differs-between-processes", "the same graph built in "
                                   f"another interpreter (PYTHONHASHSEED={rr['hashseed']}) has a "
@@ -268,6 +279,20 @@ def replay(witness: dict[str, Any], col: common.Collector) -> None:
             check_data(r, col)
 
 
+def tu_keys(g: Any) -> list[str]:
+    """Keys loopy's own key builder gives the translation units of the graph's loopy calls
+    (trusted base: if THESE differ between processes, the graph's key must differ too)."""
+    from vf.oracle import reflect
+    out = []
+    for n in reflect.walk(g):
+        if type(n).__name__ == "LoopyCall":
+            try:
+                out.append(key_of(n.translation_unit))
+            except Exception:  # noqa: BLE001
+                out.append("?")
+    return sorted(out)
+
+
 def _child(inp: str, outp: str) -> None:
     common.repo_setup()
     with open(inp, "rb") as f:
@@ -275,9 +300,10 @@ def _child(inp: str, outp: str) -> None:
     out: list[Any] = []
     for d, blob in zip(data["descs"], data["blobs"]):
         try:
-            rb = key_of(graphs.build(d))
+            g = graphs.build(d)
+            rb = key_of(g)
             up = key_of(pickle.loads(blob)) if blob is not None else None
-            out.append({"rebuilt": rb, "unpickled": up,
+            out.append({"rebuilt": rb, "unpickled": up, "tu_keys": tu_keys(g),
                         "hashseed": os.environ.get("PYTHONHASHSEED")})
         except Exception as e:  # noqa: BLE001
             out.append({"error": f"{type(e).__name__}: {e}"})
